@@ -65,8 +65,9 @@ AssertRef(ty, k, ps, as) ==
                         outcome |-> Outcome(ps, as, refs), wrote |-> {}]
     /\ UNCHANGED regen
 
+\* (pairs of different files; written as a union of one-variable sets, which the TLAPS back ends can reason about)
 PathSeqs(ty) == IF Arity[ty] = 2
-                THEN {<<p, q>> : p, q \in Paths} \ {<<p, p>> : p \in Paths}
+                THEN UNION {{<<p, q>> : q \in Paths \ {p}} : p \in Paths}
                 ELSE {<<p>> : p \in Paths}
 
 Next == \/ \E k \in KindKeys, f \in BOOLEAN : SetRegeneration(k, f)
